@@ -135,6 +135,7 @@ MUTATORS = {
         ("cache key without where", r"quimb/tensor/tnag/core\.py$", r"^(\s+)info\[\"expecs\"\]\[loop, where\] = expec_loop, norm_loop\s*$", r'\1info["expecs"][loop] = expec_loop, norm_loop'),
         ("cluster forgets exponent", r"quimb/tensor/tnag/core\.py$", r"^(\s+)k\.exponent = self\.exponent\s*$", None),
         ("unnormalised value not rescaled", r"quimb/tensor/(tn1d|tn2d|tn3d)/core\.py$", r"^(\s+)(rho|x|expec_ij) = (rho|x|expec_ij) \* 10 \*\* \(2 \* self\.exponent\)\s*$", r"\1pass"),
+        ("singular values not rescaled", r"quimb/tensor/tn1d/core\.py$", r"^(\s+)svals = svals \* 10 ?\*\* ?self\.exponent\s*$", r"\1pass"),
         ("3D cluster forgets exponent", r"quimb/tensor/tn3d/core\.py$", r"^(\s+)k\.exponent = self\.exponent\s*$", None),
         ("drop rehearse", r"quimb/tensor/(tnag/core|tn1d/core|tn2d/core|tn3d/core)\.py$", r"^(\s+)rehearse=rehearse,\s*$", None),
     ],
